@@ -55,7 +55,8 @@ func pow2(k uint) *big.Int { return new(big.Int).Lsh(big.NewInt(1), k) }
 // program generator
 
 type world struct {
-	addrs []*big.Int // addresses worth mentioning: contracts, origin, coinbase, identity precompile, a stranger
+	addrs    []*big.Int // addresses worth mentioning: contracts, origin, coinbase, identity precompile, a stranger
+	lastInit []byte
 }
 
 type pgen struct {
@@ -194,6 +195,16 @@ func (g *pgen) storeBlob(blob []byte) {
 func (g *pgen) initcode() []byte {
 	r := g.r
 	sub := &pgen{r: r, a: newAsm(), w: g.w, depth: g.depth + 1, wild: g.wild}
+	if g.w.lastInit != nil && r.Chance(1, 4) {
+		return g.w.lastInit // same initcode again: CREATE2 address collisions
+	}
+	defer func() { g.w.lastInit = sub.a.bytes() }()
+	if r.Chance(1, 14) { // code at / just above the size limit (24576)
+		sub.a.pushU(uint64(24575 + r.Intn(3)))
+		sub.a.pushU(0)
+		sub.a.op(0xf3)
+		return sub.a.bytes()
+	}
 	switch r.Intn(6) {
 	case 0: // arbitrary program
 		sub.program(2 + r.Intn(5))
@@ -316,7 +327,7 @@ func (g *pgen) stmt() {
 			a.push(g.msize())
 			a.push(g.moff())
 			a.push(g.moff())
-			a.op([]byte{0x37, 0x39, 0x3e}[r.Intn(3)])
+			a.op([]byte{0x37, 0x39, 0x37, 0x39, 0x3e}[r.Intn(5)])
 		default:
 			a.push(g.msize())
 			a.push(g.moff())
@@ -438,8 +449,8 @@ func (g *pgen) stmt() {
 			g.settle(1)
 		}
 		if r.Chance(1, 4) {
-			a.push(g.msize())
-			a.pushU(uint64(r.Intn(40)))
+			a.pushU(uint64(r.Intn(34)))
+			a.pushU(uint64(r.Intn(3)))
 			a.push(g.moff())
 			a.op(0x3e)
 		}
@@ -689,6 +700,9 @@ func genCase(r *Rng, wild bool) tcase {
 	}
 	if memGrow && t.gas > 30000 {
 		t.gas = uint64(21000 + r.Intn(9000)) // keeps the model's list-based memory small
+	}
+	if r.Chance(1, 10) {
+		t.gas = uint64(5000000 + r.Intn(3000000)) // enough for a 24 kB code deposit
 	}
 	if r.Chance(1, 6) {
 		t.kind = 1
